@@ -190,7 +190,7 @@ impl SubCheckT for Builder {
     fn strategy(_tier: Tier) -> BoxedStrategy<Case> {
         (
             (
-                1u8..=6,
+                1u8..=8,
                 order_keys_strategy(),
                 prop_oneof![3 => Just(0u8), 2 => Just(1u8), 5 => 2u8..=6],
                 prop_oneof![1 => Just(None), 6 => (1u16..=24).prop_map(Some), 2 => (25u16..=64).prop_map(Some)],
@@ -633,10 +633,163 @@ impl SubCheckT for Big {
     }
 }
 
+// ---------------------------------------------------------------------------
+// layer 4: canonicity on diagrams of hundreds of nodes, by identities that need no truth table
+// ---------------------------------------------------------------------------
+
+#[derive(Clone, Debug, Serialize, Deserialize)]
+pub struct IdentCase {
+    pub nv: u8,
+    pub seed: u64,
+    /// 0 cache everything, else the lossy cache (default size)
+    pub cache: u8,
+    pub table_cap: Option<u16>,
+    /// building steps: (operation, three operand picks)
+    pub steps: Vec<(u8, u16, u16, u16)>,
+    /// identities to test: (kind, three operand picks, variable byte, value)
+    pub idents: Vec<(u8, u16, u16, u16, u8, bool)>,
+}
+
+pub struct Identities;
+
+fn ident_go<'a, T: IteTable<'a, BddPtr<'a>> + Default>(b: &'a RobddBuilder<'a, T>, case: &IdentCase, st: &mut Stats) -> CaseResult {
+    let n = b.num_vars();
+    let mut pool: Vec<BddPtr<'a>> = (0..n).map(|v| b.var(VarLabel::new_usize(v), splitmix(case.seed ^ v as u64) & 1 == 1)).collect();
+    // two parity-like seeds give the later operations something of size to work on
+    let mut x = pool[0];
+    for v in 1..n {
+        x = if splitmix(case.seed ^ 0xAA ^ v as u64) % 3 == 0 { b.and(x, pool[v]) } else { b.xor(x, pool[v]) };
+        if v % 3 == 2 {
+            pool.push(x);
+        }
+    }
+    let at = |pool: &Vec<BddPtr<'a>>, i: u16| pool[pick(i, pool.len())];
+    for (op, a, bb, c) in case.steps.iter() {
+        let (p, q, r) = (at(&pool, *a), at(&pool, *bb), at(&pool, *c));
+        let res = match op % 6 {
+            0 => b.and(p, q),
+            1 => b.or(p, q.neg()),
+            2 => b.xor(p, q),
+            3 => b.ite(p, q, r),
+            4 => b.iff(p, r),
+            _ => b.ite(p, q.neg(), r),
+        };
+        if !res.is_const() {
+            pool.push(res);
+        }
+    }
+    let lv = order_levels(b.order());
+    let sized = |p: BddPtr| bdd_nodes(p).len();
+    let mut largest = 0usize;
+    // sampled evaluation of two diagrams, to tell "different pointers for one function" (this property) from
+    // "an operation returned another function" (C01's concern)
+    let same_on_samples = |p: BddPtr, q: BddPtr, salt: u64| -> bool {
+        (0..192u64).all(|k| {
+            let a = crate::big::assignment(case.seed ^ salt, k, n);
+            crate::big::bdd_eval(p, &a) == crate::big::bdd_eval(q, &a)
+        })
+    };
+    for (k, (kind, a, bb, c, vb, val)) in case.idents.iter().enumerate() {
+        let (p, q, r) = (at(&pool, *a), at(&pool, *bb), at(&pool, *c));
+        let v = VarLabel::new_usize(((*vb as usize) * n) >> 8);
+        let (name, lhs, rhs): (&str, BddPtr<'a>, BddPtr<'a>) = match kind % 10 {
+            0 => ("and(a,b) = and(b,a)", b.and(p, q), b.and(q, p)),
+            1 => ("or(a,b) = not and(not a, not b)", b.or(p, q), b.and(p.neg(), q.neg()).neg()),
+            2 => ("xor(a,b) = or(and(a,!b), and(!a,b))", b.xor(p, q), b.or(b.and(p, q.neg()), b.and(p.neg(), q))),
+            3 => ("ite(a,b,c) = or(and(a,b), and(!a,c))", b.ite(p, q, r), b.or(b.and(p, q), b.and(p.neg(), r))),
+            4 => ("exists(a,v) = or(a|v, a|!v)", b.exists(p, v), b.or(b.condition(p, v, true), b.condition(p, v, false))),
+            // the documented meaning of compose: exists v. (v <=> b) & a (which is a[v := b] when b ignores v)
+            5 => ("compose(a,v,b) = exists v. (v <=> b) & a", b.compose(p, v, q), b.exists(b.and(b.iff(b.var(v, true), q), p), v)),
+            6 => ("and(a,b)|v = and(a|v, b|v)", b.condition(b.and(p, q), v, *val), b.and(b.condition(p, v, *val), b.condition(q, v, *val))),
+            7 => ("ite(v, a|v, a|!v) = a", b.ite(b.var(v, true), b.condition(p, v, true), b.condition(p, v, false)), p),
+            8 => ("and_lst([a,b,c]) = and(and(a,b),c)", b.and_lst(&[p, q, r]), b.and(b.and(p, q), r)),
+            _ => ("iff(a,b) = not xor(a,b)", b.iff(p, q), b.xor(p, q).neg()),
+        };
+        largest = largest.max(sized(lhs)).max(sized(p));
+        for (side, d) in [("left", lhs), ("right", rhs)] {
+            if let Some(msg) = bdd_shape_violation(d, &|x| lv[x]) {
+                return fail(
+                    "C02/shape",
+                    format!("identity #{} {} over {} variables: the {} side ({} nodes) is not a reduced ordered BDD: {}", k, name, n, side, sized(d), msg),
+                );
+            }
+        }
+        if lhs != rhs || !b.eq(lhs, rhs) {
+            if same_on_samples(lhs, rhs, k as u64) {
+                return fail(
+                    "C02/equal-functions-different-pointers",
+                    format!(
+                        "identity #{} {} over {} variables (operands of {} / {} / {} nodes): the two sides agree on 192 sampled assignments but are different pointers ({} and {} nodes)",
+                        k,
+                        name,
+                        n,
+                        sized(p),
+                        sized(q),
+                        sized(r),
+                        sized(lhs),
+                        sized(rhs)
+                    ),
+                );
+            }
+            st.bump("identity_sides_denote_different_functions(C01's concern)");
+        }
+        st.bump("identities_checked");
+    }
+    st.bump(match largest {
+        0..=16 => "ident.largest_diagram.upto_16",
+        17..=64 => "ident.largest_diagram.17_64",
+        65..=256 => "ident.largest_diagram.65_256",
+        _ => "ident.largest_diagram.above_256",
+    });
+    if largest > 64 {
+        st.mark_nontrivial();
+    }
+    Ok(())
+}
+
+pub fn run_ident(case: &IdentCase, st: &mut Stats) -> CaseResult {
+    let n = (case.nv as usize).clamp(9, 20);
+    let order: Vec<VarLabel> = crate::big::permutation(case.seed, n).into_iter().map(VarLabel::new_usize).collect();
+    rsdd::verif_hooks::set_unique_table_capacity(case.table_cap.map(|c| c as usize));
+    if case.cache == 0 {
+        let b = RobddBuilder::<AllIteTable<BddPtr>>::new(VarOrder::new(&order));
+        rsdd::verif_hooks::set_unique_table_capacity(None);
+        ident_go(&b, case, st)
+    } else {
+        let b = RobddBuilder::<rsdd::builder::cache::LruIteTable<BddPtr>>::new(VarOrder::new(&order));
+        rsdd::verif_hooks::set_unique_table_capacity(None);
+        ident_go(&b, case, st)
+    }
+}
+
+impl SubCheckT for Identities {
+    type Case = IdentCase;
+    const NAME: &'static str = "identities_on_large_diagrams";
+    const RULE: &'static str = "a builder over 9..20 variables (pseudo-random order, either cache, unique table default or 1..64 slots), a pool grown by 10..40 and / or / xor / ite / iff steps from parity-like seeds (diagrams of hundreds of nodes), then 4..16 identities whose two sides are built by different routes and must be the same pointer: commutativity, De Morgan, xor and ite by and/or, exists = or of the two cofactors, compose = exists v. (v <=> g) & f, conditioning distributes over and, Shannon re-assembly, and_lst = nested and, iff = not xor; both sides pass the shape walk (ordered, reduced, regular non-false high edges); sides that differ as pointers are evaluated on 192 sampled assignments: agreeing there, they are two pointers for one function (reported here), else an operation returned another function (recorded, C01's concern). Non-trivial: a diagram of more than 64 nodes took part";
+    fn cases(tier: Tier) -> u32 {
+        tier.pick(1500, 40_000)
+    }
+    fn strategy(_tier: Tier) -> BoxedStrategy<IdentCase> {
+        (
+            9u8..=20,
+            any::<u64>(),
+            0u8..2,
+            prop_oneof![2 => Just(None), 3 => (1u16..=64).prop_map(Some)],
+            proptest::collection::vec((any::<u8>(), idx_strategy(), idx_strategy(), idx_strategy()), 10..=40),
+            proptest::collection::vec((any::<u8>(), idx_strategy(), idx_strategy(), idx_strategy(), any::<u8>(), any::<bool>()), 4..=16),
+        )
+            .prop_map(|(nv, seed, cache, table_cap, steps, idents)| IdentCase { nv, seed, cache, table_cap, steps, idents })
+            .boxed()
+    }
+    fn run(case: &IdentCase, st: &mut Stats) -> CaseResult {
+        run_ident(case, st)
+    }
+}
+
 pub fn property() -> Property {
     Property {
         id: "C02",
-        subs: vec![sub::<Builder>(), sub::<Table>(), sub::<TableMid>(), sub::<Big>()],
+        subs: vec![sub::<Builder>(), sub::<Table>(), sub::<TableMid>(), sub::<Big>(), sub::<Identities>()],
         fuzz: vec![FuzzSpec { target: "bdd_ops", runs: 60000, max_len: 400 }, FuzzSpec { target: "tables", runs: 150000, max_len: 500 }],
         assumptions: vec![
             "functions over <= 8 variables for the truth-table keyed canonicity map; <= 60 operations",
